@@ -1,15 +1,1136 @@
-//! Profiles for C05, C10, C18, C20.
+//! Profiles for C05 (readers), C10 (GC), C18 (writer lock), C20 (checksums) and the concurrent
+//! producers variant of C02.
 
-use crate::exec::{Exec, RunOut};
-use crate::rng::Rng;
+use crate::dump;
+use crate::exec::{self, catch, Exec, RunOut};
+use crate::model::{self, DelSpec, DocSpec, Fields};
+use crate::profiles2::harness_fail;
+use crate::rng::{derive, Rng};
+use crate::sched::{self, draw_strategy};
+use crate::simdir::{self, FailMode, FailSpec, Image, SimDir};
 use crate::workload::*;
+use std::collections::{BTreeMap, BTreeSet};
+use std::path::{Path, PathBuf};
+use std::sync::atomic::{AtomicBool, Ordering};
+use std::sync::{Arc, Mutex as StdMutex};
+use tantivy::directory::Directory;
+use tantivy::{Index, IndexReader, ReloadPolicy, Searcher, Term};
 
-pub fn gen_case4(prop: &str, _seed: u64, _thorough: bool, _rng: &mut Rng) -> Case {
-    panic!("HARNESS: no generator for {prop}");
+pub fn gen_case4(prop: &str, seed: u64, thorough: bool, rng: &mut Rng) -> Case {
+    match prop {
+        "C05" | "C10" => {
+            let mut cfg = base_cfg(rng, Profile::Readers, thorough);
+            cfg.index_threads = cfg.index_threads.min(3);
+            cfg.n_readers = rng.range(1, 3) as usize;
+            cfg.second_index_reader = rng.chance(2, 3);
+            cfg.reader_on_commit = rng.chance(1, 3);
+            if prop == "C10" {
+                cfg.second_index_reader = true;
+            }
+            cfg.strategy = draw_strategy(
+                rng,
+                &["reader", "reader", "segment_updater", "merge_thread", "watch", "thrd-tantivy-index"],
+            );
+            let mut g = Gen { rng: Rng::new(rng.next_u64()), next_uid: 1 };
+            let n = rng.range(5, 22) as usize;
+            let mut ops = gen_history(&mut g, &cfg, n, true, true, true);
+            // sprinkle main-thread reader operations and, for C10, more GC
+            let mut k = 0;
+            while k < ops.len() {
+                if rng.chance(1, 5) {
+                    let op = match rng.below(if prop == "C10" { 5 } else { 4 }) {
+                        0 => Op::Reload(rng.below(cfg.n_readers as u64) as usize),
+                        1 => Op::Hold(rng.below(cfg.n_readers as u64) as usize),
+                        2 => Op::Recheck,
+                        3 => Op::Reload(rng.below(cfg.n_readers as u64) as usize),
+                        _ => Op::Gc,
+                    };
+                    ops.insert(k, op);
+                    k += 1;
+                }
+                k += 1;
+            }
+            ops.push(Op::Recheck);
+            Case { seed, cfg, ops }
+        }
+        "C18" => {
+            let mut cfg = base_cfg(rng, Profile::Lock, thorough);
+            cfg.flock = rng.chance(3, 10);
+            cfg.index_threads = rng.range(1, 2) as usize;
+            cfg.second_index_reader = rng.chance(1, 2); // a second Index handle exists
+            cfg.strategy = draw_strategy(rng, &["contender", "segment_updater", "thrd-tantivy-index"]);
+            let mut g = Gen { rng: Rng::new(rng.next_u64()), next_uid: 1 };
+            let n = rng.range(4, 16) as usize;
+            let mut ops = vec![];
+            for _ in 0..n {
+                let second = cfg.second_index_reader && rng.chance(1, 2);
+                let op = match rng.weighted(&[18, 14, 8, 6, 14, 10, 8, 6, 10, 6]) {
+                    0 => Op::CreateWriter { kind: 0, second_index: second },
+                    1 => Op::DropWriter,
+                    2 => Op::Rollback,
+                    3 => Op::WaitMerges { threads: 1 },
+                    4 => Op::NewWriterAttempt { second_index: second },
+                    5 => Op::CreateWriter { kind: rng.range(1, 3) as u8, second_index: second },
+                    6 => Op::RaceCreate { n: rng.range(2, 3) as usize },
+                    7 => Op::KillWorker,
+                    8 => Op::Add(g.doc(cfg.nkeys)),
+                    _ => Op::Commit,
+                };
+                ops.push(op);
+            }
+            ops.push(Op::DropWriter);
+            ops.push(Op::CreateWriter { kind: 0, second_index: false });
+            Case { seed, cfg, ops }
+        }
+        "C20" => {
+            let mut cfg = base_cfg(rng, Profile::Damage, thorough);
+            cfg.index_threads = cfg.index_threads.min(3);
+            cfg.faults.short_write_pct = *rng.pick(&[0u32, 10, 30]);
+            cfg.faults.eintr_pct = *rng.pick(&[0u32, 5, 15]);
+            cfg.faults.seed = rng.next_u64();
+            cfg.strategy = draw_strategy(rng, &crate::profiles::CLASSES_ALL);
+            let mut g = Gen { rng: Rng::new(rng.next_u64()), next_uid: 1 };
+            let n = rng.range(4, 16) as usize;
+            let ops = gen_history(&mut g, &cfg, n, rng.chance(1, 2), false, false);
+            Case { seed, cfg, ops }
+        }
+        "C02P" => {
+            let mut cfg = base_cfg(rng, Profile::Producers, thorough);
+            cfg.nkeys = rng.range(1, 3);
+            cfg.strategy = draw_strategy(rng, &["producer", "producer", "thrd-tantivy-index", "segment_updater"]);
+            let mut g = Gen { rng: Rng::new(rng.next_u64()), next_uid: 1 };
+            let mut ops = vec![];
+            let rounds = rng.range(1, 3);
+            for _ in 0..rounds {
+                for _ in 0..rng.below(3) {
+                    ops.push(Op::Add(g.doc(cfg.nkeys)));
+                }
+                if rng.chance(1, 3) {
+                    ops.push(Op::Commit);
+                }
+                let np = rng.range(2, 3) as usize;
+                let mut ps = vec![];
+                for _ in 0..np {
+                    let m = rng.range(1, 4);
+                    let mut p = vec![];
+                    for _ in 0..m {
+                        if rng.chance(3, 5) {
+                            p.push(ProdOp::Add(g.doc(cfg.nkeys)));
+                        } else {
+                            p.push(ProdOp::DeleteKey(rng.below(cfg.nkeys)));
+                        }
+                    }
+                    ps.push(p);
+                }
+                ops.push(Op::Fork(ps));
+            }
+            Case { seed, cfg, ops }
+        }
+        _ => panic!("HARNESS: no generator for {prop}"),
+    }
 }
 
-pub fn body4(prop: &'static str, _case: &Case) -> RunOut {
-    crate::profiles2::harness_fail(format!("no body for {prop}"))
+pub fn body4(prop: &'static str, case: &Case) -> RunOut {
+    match prop {
+        "C05" | "C10" => body_readers(prop, case),
+        "C18" => body_lock(case),
+        "C20" => body_damage(case),
+        "C02P" => body_producers(case),
+        _ => harness_fail(format!("no body for {prop}")),
+    }
 }
 
-pub fn exec_special4(_e: &mut Exec, _op: &Op) {}
+// ----------------------------------------------------------------------------------------------
+// readers
+
+#[derive(Clone, Debug)]
+pub struct ReaderEvent {
+    pub reader: usize,
+    pub thread: String,
+    pub reload: bool,
+    pub start_step: u64,
+    pub end_step: u64,
+    pub start_seq: u64,
+    pub end_seq: u64,
+    /// uid -> canonical record, or the error
+    pub result: Result<BTreeMap<u64, String>, String>,
+}
+
+pub struct Held {
+    pub searcher: Searcher,
+    pub fingerprint: String,
+    pub by: String,
+}
+
+pub struct ReaderSide {
+    pub readers: Vec<IndexReader>,
+    pub events: Arc<StdMutex<Vec<ReaderEvent>>>,
+    pub held: Vec<Held>,
+    pub handles: Vec<shuttle::thread::JoinHandle<Vec<String>>>,
+    pub stop: Arc<AtomicBool>,
+    pub index_b: Option<Index>,
+}
+
+thread_local! {
+    pub static READERS: std::cell::RefCell<Option<ReaderSide>> = const { std::cell::RefCell::new(None) };
+}
+
+fn canon_map(d: &dump::Dump) -> Result<BTreeMap<u64, String>, String> {
+    let mut m = BTreeMap::new();
+    for r in d.records() {
+        if m.insert(r.uid, r.canon()).is_some() {
+            return Err(format!("doc uid={} present twice", r.uid));
+        }
+    }
+    Ok(m)
+}
+
+fn observe(reader: &IndexReader, idx: usize, do_reload: bool, f: &Fields, dir: &SimDir, who: &str) -> ReaderEvent {
+    let (s0, q0) = (sched::step(), dir.op_count());
+    let res = if do_reload { reader.reload().map_err(|e| format!("reload failed: {e}")) } else { Ok(()) };
+    let result = res.and_then(|_| {
+        let s = reader.searcher();
+        dump::dump_searcher(&s, f).map_err(|e| format!("search failed: {e}")).and_then(|d| canon_map(&d))
+    });
+    let (s1, q1) = (sched::step(), dir.op_count());
+    ReaderEvent { reader: idx, thread: who.to_string(), reload: do_reload, start_step: s0, end_step: s1, start_seq: q0, end_seq: q1, result }
+}
+
+fn setup_readers(e: &mut Exec) -> Result<(), String> {
+    let cfg = &e.case.cfg;
+    let policy = if cfg.reader_on_commit { ReloadPolicy::OnCommitWithDelay } else { ReloadPolicy::Manual };
+    let mut readers = vec![];
+    let mut index_b = None;
+    for r in 0..cfg.n_readers {
+        let idx: Index = if cfg.second_index_reader && r == cfg.n_readers - 1 {
+            let ib = Index::open(simdir::boxed(&e.dir)).map_err(|x| format!("HARNESS: second Index::open: {x}"))?;
+            index_b = Some(ib.clone());
+            ib
+        } else {
+            e.index.clone()
+        };
+        let rd: IndexReader = idx
+            .reader_builder()
+            .reload_policy(policy)
+            .try_into()
+            .map_err(|x| format!("HARNESS: reader: {x}"))?;
+        readers.push(rd);
+    }
+    let events: Arc<StdMutex<Vec<ReaderEvent>>> = Arc::new(StdMutex::new(vec![]));
+    let stop = Arc::new(AtomicBool::new(false));
+    let mut handles = vec![];
+    let mut rng = Rng::new(derive(e.case.seed, &[0x5EAD]));
+    // reader threads: thread t uses reader t % n (so with 2 threads on 1 reader they share it)
+    let n_threads = if rng.chance(1, 3) { cfg.n_readers + 1 } else { cfg.n_readers };
+    for t in 0..n_threads {
+        let ridx = t % cfg.n_readers;
+        let reader = readers[ridx].clone();
+        let ev = events.clone();
+        let st = stop.clone();
+        let fields = e.fields.clone();
+        let dir = e.dir.clone();
+        let iters = rng.range(2, 7);
+        let plan: Vec<(bool, bool)> = (0..iters).map(|_| (rng.chance(3, 4), rng.chance(1, 4))).collect();
+        let name = format!("reader{t}");
+        let name2 = name.clone();
+        let h = shuttle::thread::Builder::new()
+            .name(name)
+            .spawn(move || {
+                let mut held: Vec<(Searcher, String)> = vec![];
+                let mut problems = vec![];
+                for (do_reload, hold) in plan {
+                    if st.load(Ordering::SeqCst) {
+                        break;
+                    }
+                    let evt = observe(&reader, ridx, do_reload, &fields, &dir, &name2);
+                    ev.lock().unwrap().push(evt);
+                    for (s, fp) in &held {
+                        match dump::fingerprint(s, &fields) {
+                            Ok(now) => {
+                                if &now != fp {
+                                    problems.push(format!("held searcher changed: <{fp}> -> <{now}>"));
+                                }
+                            }
+                            Err(x) => problems.push(format!("held searcher failed: {x}")),
+                        }
+                    }
+                    if hold {
+                        let s = reader.searcher();
+                        if let Ok(fp) = dump::fingerprint(&s, &fields) {
+                            held.push((s, fp));
+                        }
+                    }
+                    shuttle::thread::yield_now();
+                }
+                // last look at the held searchers, after whatever the writer did meanwhile
+                for (s, fp) in &held {
+                    match dump::fingerprint(s, &fields) {
+                        Ok(now) => {
+                            if &now != fp {
+                                problems.push(format!("held searcher changed: <{fp}> -> <{now}>"));
+                            }
+                        }
+                        Err(x) => problems.push(format!("held searcher failed: {x}")),
+                    }
+                }
+                problems
+            })
+            .map_err(|x| format!("HARNESS: spawn reader: {x}"))?;
+        handles.push(h);
+    }
+    READERS.with(|r| {
+        *r.borrow_mut() = Some(ReaderSide { readers, events, held: vec![], handles, stop, index_b });
+    });
+    Ok(())
+}
+
+fn body_readers(prop: &'static str, case: &Case) -> RunOut {
+    let mut e = match Exec::new(case, prop) {
+        Ok(e) => e,
+        Err(m) => return harness_fail(m),
+    };
+    if let Err(m) = setup_readers(&mut e) {
+        READERS.with(|r| *r.borrow_mut() = None);
+        return harness_fail(m);
+    }
+    e.dir.arm(true);
+    e.run_ops();
+    // stop and join the reader threads
+    let side = READERS.with(|r| r.borrow_mut().take()).unwrap();
+    let ReaderSide { readers, events, mut held, handles, stop, index_b } = side;
+    for h in handles {
+        match h.join() {
+            Ok(problems) => {
+                for p in problems {
+                    e.out.violate("C05", "held_searcher", p);
+                }
+            }
+            Err(_) => e.out.violate(prop, "reader_thread_panic", "a reader thread panicked".into()),
+        }
+    }
+    stop.store(true, Ordering::SeqCst);
+    // held searchers survive the writer shutting down and a final GC
+    e.phase_quiesce(true);
+    for h in held.drain(..) {
+        match dump::fingerprint(&h.searcher, &e.fields) {
+            Ok(now) => {
+                if now != h.fingerprint {
+                    e.out.violate("C05", "held_searcher", format!("searcher held by {} changed after shutdown", h.by));
+                }
+            }
+            Err(x) => e.out.violate("C05", "held_searcher", format!("searcher held by {} failed after shutdown: {x}", h.by)),
+        }
+    }
+    // a last reload of every reader sees the final commit
+    for (i, rd) in readers.iter().enumerate() {
+        let evt = observe(rd, i, true, &e.fields, &e.dir, "main-final");
+        events.lock().unwrap().push(evt);
+    }
+    drop(readers);
+    drop(index_b);
+    e.check_publications();
+    let evs: Vec<ReaderEvent> = events.lock().unwrap().clone();
+    check_reader_events(&mut e, &evs, prop);
+    let overlapped = evs.iter().filter(|x| x.reload && x.end_seq > x.start_seq).count() as u64;
+    e.out.probe_n("reader_events", evs.len() as u64);
+    e.out.nontrivial = e.out.commits_ok >= 1 && overlapped >= 1;
+    sched::set_calm(false);
+    e.finish()
+}
+
+/// Post-hoc oracle over the recorded reader history.
+fn check_reader_events(e: &mut Exec, evs: &[ReaderEvent], prop: &'static str) {
+    let commit_maps: Vec<BTreeMap<u64, String>> = e
+        .model
+        .commits
+        .iter()
+        .map(|c| c.docs.iter().map(|d| (d.uid, model::expected_record(d, &e.fields).canon())).collect())
+        .collect();
+    // (event index, matching commits)
+    let mut matched: Vec<(usize, Vec<usize>)> = vec![];
+    for (i, ev) in evs.iter().enumerate() {
+        match &ev.result {
+            Err(msg) => {
+                e.out.violate(
+                    prop,
+                    if ev.reload { "reload_failed" } else { "search_failed" },
+                    format!("{} on reader {} (storage ops {}..{}): {msg}", ev.thread, ev.reader, ev.start_seq, ev.end_seq),
+                );
+                return;
+            }
+            Ok(map) => {
+                // commits that were current or in flight during the reload window
+                let mut allowed: BTreeSet<usize> = BTreeSet::new();
+                if ev.reload {
+                    for a in e.allowed_at(ev.start_seq) {
+                        allowed.insert(a);
+                    }
+                    for a in e.allowed_at(ev.end_seq) {
+                        allowed.insert(a);
+                    }
+                    for c in &e.commit_events {
+                        if c.start_seq <= ev.end_seq && c.end_seq > ev.start_seq {
+                            if let Some(m) = c.model_after {
+                                allowed.insert(m);
+                            }
+                        }
+                    }
+                } else {
+                    // no reload: any commit published so far
+                    let upper = e.allowed_at(ev.end_seq).into_iter().max().unwrap_or(0);
+                    for a in 0..=upper {
+                        allowed.insert(a);
+                    }
+                }
+                let js: Vec<usize> = allowed.iter().cloned().filter(|j| &commit_maps[*j] == map).collect();
+                if js.is_empty() {
+                    let any: Vec<usize> = (0..commit_maps.len()).filter(|j| &commit_maps[*j] == map).collect();
+                    let what = if any.is_empty() {
+                        "is not the content of any commit (mixture or uncommitted work)".to_string()
+                    } else {
+                        format!("is commit(s) {any:?}, none of which could be current")
+                    };
+                    e.out.violate(
+                        "C05",
+                        "reader_state_not_a_current_commit",
+                        format!(
+                            "{} {} reader {} during storage ops {}..{} saw uids {:?}, which {what}; allowed commits {:?}",
+                            ev.thread,
+                            if ev.reload { "reloaded" } else { "looked at" },
+                            ev.reader,
+                            ev.start_seq,
+                            ev.end_seq,
+                            map.keys().collect::<Vec<_>>(),
+                            allowed
+                        ),
+                    );
+                    return;
+                }
+                matched.push((i, js));
+            }
+        }
+    }
+    // monotonicity per IndexReader (real-time order by scheduler step)
+    for (ia, ja) in &matched {
+        for (ib, jb) in &matched {
+            let (a, b) = (&evs[*ia], &evs[*ib]);
+            if a.reader == b.reader && a.end_step < b.start_step {
+                let min_a = *ja.iter().min().unwrap();
+                let max_b = *jb.iter().max().unwrap();
+                if max_b < min_a {
+                    e.out.violate(
+                        "C05",
+                        "reader_went_back",
+                        format!(
+                            "reader {}: {} saw commit#{min_a} (steps {}..{}), later {} saw commit#{max_b} (steps {}..{}, reload={})",
+                            a.reader, a.thread, a.start_step, a.end_step, b.thread, b.start_step, b.end_step, b.reload
+                        ),
+                    );
+                    return;
+                }
+            }
+        }
+    }
+}
+
+/// Reader operations issued by the main thread.
+fn main_reader_op(e: &mut Exec, op: &Op) {
+    let Some(mut side) = READERS.with(|r| r.borrow_mut().take()) else { return };
+    match op {
+        Op::Reload(r) => {
+            if let Some(rd) = side.readers.get(*r) {
+                let evt = observe(rd, *r, true, &e.fields, &e.dir, "main");
+                side.events.lock().unwrap().push(evt);
+            }
+        }
+        Op::Hold(r) => {
+            if let Some(rd) = side.readers.get(*r) {
+                let s = rd.searcher();
+                if let Ok(fp) = dump::fingerprint(&s, &e.fields) {
+                    side.held.push(Held { searcher: s, fingerprint: fp, by: "main".into() });
+                }
+            }
+        }
+        Op::Recheck => {
+            for h in &side.held {
+                match dump::fingerprint(&h.searcher, &e.fields) {
+                    Ok(now) => {
+                        if now != h.fingerprint {
+                            e.out.violate("C05", "held_searcher", format!("held searcher changed: <{}> -> <{now}>", h.fingerprint));
+                        }
+                    }
+                    Err(x) => e.out.violate("C05", "held_searcher", format!("held searcher failed: {x}")),
+                }
+            }
+        }
+        _ => {}
+    }
+    READERS.with(|r| *r.borrow_mut() = Some(side));
+}
+
+// ----------------------------------------------------------------------------------------------
+// C18: writer lock
+
+thread_local! {
+    static INDEX2: std::cell::RefCell<Option<Index>> = const { std::cell::RefCell::new(None) };
+}
+
+fn is_lock_failure(e: &tantivy::TantivyError) -> bool {
+    matches!(e, tantivy::TantivyError::LockFailure(..))
+}
+
+fn writer_opts(kind: u8, cfg: &Cfg) -> tantivy::indexer::IndexWriterOptions {
+    use tantivy::indexer::IndexWriterOptions;
+    let b = IndexWriterOptions::builder().num_merge_threads(cfg.merge_threads);
+    match kind {
+        1 => b.num_worker_threads(1).memory_budget_per_thread(1_000_000).build(),
+        2 => b.num_worker_threads(1).memory_budget_per_thread(u32::MAX as usize).build(),
+        3 => b.num_worker_threads(0).memory_budget_per_thread(exec::BUDGET).build(),
+        _ => b.num_worker_threads(cfg.index_threads.max(1)).memory_budget_per_thread(exec::BUDGET).build(),
+    }
+}
+
+fn body_lock(case: &Case) -> RunOut {
+    let mut e = match Exec::new(case, "C18") {
+        Ok(e) => e,
+        Err(m) => return harness_fail(m),
+    };
+    let i2 = if case.cfg.second_index_reader {
+        match Index::open(simdir::boxed(&e.dir)) {
+            Ok(i) => Some(i),
+            Err(x) => return harness_fail(format!("HARNESS: second Index::open: {x}")),
+        }
+    } else {
+        None
+    };
+    INDEX2.with(|i| *i.borrow_mut() = i2);
+    e.dir.arm(false);
+    e.run_ops();
+    INDEX2.with(|i| *i.borrow_mut() = None);
+    e.out.nontrivial = e.out.probes.get("lock_attempt_refused").cloned().unwrap_or(0) >= 1
+        || e.out.probes.get("race_create").cloned().unwrap_or(0) >= 1;
+    // final: the last writer works
+    if e.writer.is_some() && e.out.violations.is_empty() {
+        e.exec_op(&Op::Add(DocSpec { uid: 3_000_000, key: 0, body: vec![3], tag: 0, sortv: None, js: 0 }));
+        e.exec_op(&Op::Commit);
+    }
+    e.phase_quiesce(false);
+    sched::set_calm(false);
+    e.finish()
+}
+
+fn pick_index(e: &Exec, second: bool) -> Index {
+    if second {
+        if let Some(i) = INDEX2.with(|i| i.borrow().clone()) {
+            return i;
+        }
+    }
+    e.index.clone()
+}
+
+fn lock_op(e: &mut Exec, op: &Op) {
+    let cfg = e.case.cfg.clone();
+    match op {
+        Op::CreateWriter { kind, second_index } => {
+            let idx = pick_index(e, *second_index);
+            let held = e.writer.is_some();
+            let res = catch(|| idx.writer_with_options::<tantivy::TantivyDocument>(writer_opts(*kind, &cfg)));
+            match res {
+                Err(p) => e.out.violate("C18", "panic_on_calling_thread", format!("writer_with_options: {p}")),
+                Ok(Ok(w)) => {
+                    if held {
+                        e.out.violate("C18", "second_writer_created", "a second IndexWriter was created while one is alive".into());
+                    } else if *kind != 0 {
+                        e.out.violate("C18", "invalid_options_accepted", format!("writer options kind {kind} accepted"));
+                    } else {
+                        e.out.probe("writer_created");
+                        e.writer = Some(w);
+                        e.model.rollback();
+                        e.last_stamp = None;
+                        e.txn_ops = 0;
+                    }
+                }
+                Ok(Err(err)) => {
+                    if held {
+                        if is_lock_failure(&err) {
+                            e.out.probe("lock_attempt_refused");
+                        } else {
+                            e.out.violate("C18", "wrong_error_while_locked", format!("expected a lock error, got: {err}"));
+                        }
+                    } else if *kind == 0 {
+                        e.out.violate("C18", "writer_refused_while_unlocked", format!("no writer is alive but creation failed: {err}"));
+                    } else if is_lock_failure(&err) {
+                        e.out.violate("C18", "writer_refused_while_unlocked", format!("no writer is alive but the lock is busy: {err}"));
+                    } else {
+                        e.out.probe("failed_construction");
+                    }
+                }
+            }
+        }
+        Op::NewWriterAttempt { second_index } => {
+            if e.writer.is_none() {
+                return;
+            }
+            let idx = pick_index(e, *second_index);
+            match catch(|| idx.writer_with_options::<tantivy::TantivyDocument>(writer_opts(0, &cfg))) {
+                Err(p) => e.out.violate("C18", "panic_on_calling_thread", format!("writer attempt: {p}")),
+                Ok(Ok(_w)) => e.out.violate("C18", "second_writer_created", "a second IndexWriter was created while one is alive".into()),
+                Ok(Err(err)) => {
+                    if is_lock_failure(&err) {
+                        e.out.probe("lock_attempt_refused");
+                    } else {
+                        e.out.violate("C18", "wrong_error_while_locked", format!("expected a lock error, got: {err}"));
+                    }
+                }
+            }
+            // the alive writer is not disturbed
+            e.exec_op(&Op::Add(DocSpec { uid: 4_000_000 + e.out.steps + sched::step(), key: 0, body: vec![2], tag: 0, sortv: None, js: 0 }));
+            e.exec_op(&Op::Commit);
+        }
+        Op::DropWriter => {
+            e.pending_merges.clear();
+            if let Some(w) = e.writer.take() {
+                if let Err(p) = catch(|| drop(w)) {
+                    e.out.violate("C18", "panic_on_calling_thread", format!("drop(writer): {p}"));
+                }
+                e.model.rollback();
+                e.last_stamp = None;
+                e.txn_ops = 0;
+            }
+        }
+        Op::RaceCreate { n } => {
+            if e.writer.is_some() {
+                return;
+            }
+            e.out.probe("race_create");
+            let results: Arc<StdMutex<Vec<(String, Option<(u64, u64)>, Option<String>)>>> = Arc::new(StdMutex::new(vec![]));
+            let mut hs = vec![];
+            for t in 0..*n {
+                let idx = if t % 2 == 1 { pick_index(e, true) } else { e.index.clone() };
+                let cfg2 = cfg.clone();
+                let res = results.clone();
+                let name = format!("contender{t}");
+                let name2 = name.clone();
+                let h = shuttle::thread::Builder::new().name(name).spawn(move || {
+                    match idx.writer_with_options::<tantivy::TantivyDocument>(writer_opts(0, &cfg2)) {
+                        Ok(w) => {
+                            let a = sched::step();
+                            shuttle::thread::yield_now();
+                            shuttle::thread::yield_now();
+                            let b = sched::step();
+                            drop(w);
+                            res.lock().unwrap().push((name2, Some((a, b)), None));
+                        }
+                        Err(err) => {
+                            let lf = is_lock_failure(&err);
+                            res.lock().unwrap().push((name2, None, if lf { None } else { Some(err.to_string()) }));
+                        }
+                    }
+                });
+                match h {
+                    Ok(h) => hs.push(h),
+                    Err(x) => {
+                        e.out.harness_error = Some(format!("HARNESS: spawn contender: {x}"));
+                        return;
+                    }
+                }
+            }
+            for h in hs {
+                if h.join().is_err() {
+                    e.out.violate("C18", "contender_panic", "a racing writer creation panicked".into());
+                }
+            }
+            let rs = results.lock().unwrap().clone();
+            let holders: Vec<&(String, Option<(u64, u64)>, Option<String>)> = rs.iter().filter(|r| r.1.is_some()).collect();
+            for r in &rs {
+                if let Some(msg) = &r.2 {
+                    e.out.violate("C18", "wrong_error_while_locked", format!("{}: {msg}", r.0));
+                }
+            }
+            if holders.is_empty() {
+                e.out.violate("C18", "writer_refused_while_unlocked", format!("{n} racing creations on an unlocked index all failed"));
+            }
+            for a in &holders {
+                for b in &holders {
+                    if a.0 < b.0 {
+                        let (ia, ib) = (a.1.unwrap(), b.1.unwrap());
+                        if ia.0 <= ib.1 && ib.0 <= ia.1 {
+                            e.out.violate(
+                                "C18",
+                                "two_writers_alive",
+                                format!("{} held a writer during steps {:?} and {} during {:?}", a.0, ia, b.0, ib),
+                            );
+                        }
+                    }
+                }
+            }
+        }
+        Op::KillWorker => {
+            if e.writer.is_none() {
+                return;
+            }
+            // every storage operation fails from now on: the next segment write kills a worker
+            let at = e.dir.op_count();
+            e.dir.with(|s| {
+                s.plan.fails = vec![FailSpec { at, mode: FailMode::FromOn }];
+                s.armed = true;
+            });
+            e.fault_profile = true;
+            let mut killed = false;
+            for k in 0..6u64 {
+                let d = DocSpec { uid: 5_000_000 + at * 10 + k, key: 0, body: vec![1], tag: 0, sortv: None, js: 0 };
+                e.exec_op(&Op::Add(d));
+                if e.stop {
+                    killed = true;
+                    break;
+                }
+            }
+            if !killed {
+                e.exec_op(&Op::Commit);
+            }
+            e.dir.with(|s| {
+                s.plan.fails.clear();
+                s.armed = false;
+            });
+            e.fault_profile = false;
+            e.stop = false;
+            // every storage op failed since `at`: a failed commit cannot have been published
+            while e.model.commits.len() > 1 && e.model.commits.last().map(|c| c.opstamp.is_none()).unwrap_or(false) {
+                e.model.commits.pop();
+            }
+            e.commit_events.retain(|c| c.ok || c.model_after.is_none());
+            e.model.rollback();
+            e.out.probe("worker_killed");
+            // the killed writer still holds the lock until it is dropped
+            let idx = pick_index(e, false);
+            match catch(|| idx.writer_with_options::<tantivy::TantivyDocument>(writer_opts(0, &cfg))) {
+                Err(p) => e.out.violate("C18", "panic_on_calling_thread", format!("writer attempt: {p}")),
+                Ok(Ok(_)) => e.out.violate("C18", "second_writer_created", "a writer was created while the killed writer is still alive".into()),
+                Ok(Err(err)) => {
+                    if is_lock_failure(&err) {
+                        e.out.probe("lock_attempt_refused");
+                    } else {
+                        e.out.violate("C18", "wrong_error_while_locked", format!("expected a lock error, got: {err}"));
+                    }
+                }
+            }
+            lock_op(e, &Op::DropWriter);
+            lock_op(e, &Op::CreateWriter { kind: 0, second_index: false });
+            if e.writer.is_none() && e.out.violations.is_empty() {
+                e.out.violate("C18", "writer_refused_while_unlocked", "no writer after dropping the killed writer".into());
+            }
+        }
+        _ => {}
+    }
+}
+
+// ----------------------------------------------------------------------------------------------
+// C20: checksum validation
+
+fn body_damage(case: &Case) -> RunOut {
+    let mut e = match Exec::new(case, "C20") {
+        Ok(e) => e,
+        Err(m) => return harness_fail(m),
+    };
+    e.dir.arm(true);
+    e.run_ops();
+    e.phase_quiesce(true);
+    if !e.out.violations.is_empty() {
+        return e.finish();
+    }
+    let img = e.dir.visible_image();
+    // write side: every managed file ends with a footer whose checksum covers exactly the body
+    let intact = match validate(&img) {
+        Ok(v) => v,
+        Err(x) => {
+            e.out.violate("C20", "intact_index_rejected", x);
+            return e.finish();
+        }
+    };
+    if !intact.is_empty() {
+        e.out.violate("C20", "intact_index_reported_damaged", format!("{intact:?} (written with short writes {}%, EINTR {}%)", case.cfg.faults.short_write_pct, case.cfg.faults.eintr_pct));
+        return e.finish();
+    }
+    let metas = match e.index.searchable_segment_metas() {
+        Ok(m) => m,
+        Err(x) => return harness_fail(format!("HARNESS: metas: {x}")),
+    };
+    let files: Vec<PathBuf> = exec::expected_files(&metas)
+        .into_iter()
+        .filter(|p| !p.to_string_lossy().ends_with(".json"))
+        .filter(|p| img.contains_key(p))
+        .collect();
+    let thorough = case.cfg.crash_samples == 0;
+    let mut rng = Rng::new(derive(case.seed, &[0xDA]));
+    let mut cases = 0u64;
+    'files: for f in &files {
+        let data = &img[f];
+        let Some(body_len) = body_len_of(data) else {
+            e.out.violate("C20", "footer_unparseable", format!("{} has no parseable footer", f.display()));
+            break;
+        };
+        // reading back yields exactly the body
+        let mut damages: Vec<(String, Vec<u8>)> = vec![];
+        let all_bits = if thorough { body_len <= 4096 } else { body_len <= 96 };
+        if all_bits {
+            for bit in 0..body_len * 8 {
+                let mut d = data.clone();
+                d[bit / 8] ^= 1 << (bit % 8);
+                damages.push((format!("bitflip@{bit}"), d));
+            }
+        } else {
+            for _ in 0..(if thorough { 512 } else { 48 }) {
+                let bit = rng.below(body_len as u64 * 8) as usize;
+                let mut d = data.clone();
+                d[bit / 8] ^= 1 << (bit % 8);
+                damages.push((format!("bitflip@{bit}"), d));
+            }
+        }
+        let trunc_all = thorough || data.len() <= 200;
+        let lens: Vec<usize> = if trunc_all {
+            (0..data.len()).collect()
+        } else {
+            let mut v: Vec<usize> = (0..24).map(|_| rng.below(data.len() as u64) as usize).collect();
+            v.extend(0..9.min(data.len()));
+            v.extend(data.len().saturating_sub(70)..data.len());
+            v.sort();
+            v.dedup();
+            v
+        };
+        for l in lens {
+            damages.push((format!("truncate@{l}"), data[..l].to_vec()));
+        }
+        for k in [1usize, 2, 7, 8, 9, 64] {
+            let mut d = data.clone();
+            for _ in 0..k {
+                d.push(rng.below(256) as u8);
+            }
+            damages.push((format!("extend+{k}"), d));
+        }
+        if body_len > 0 {
+            for _ in 0..(if thorough { 64 } else { 12 }) {
+                let mut d = data.clone();
+                let n = rng.range(1, 4) as usize;
+                let mut changed = false;
+                for _ in 0..n {
+                    let pos = rng.below(body_len as u64) as usize;
+                    let nv = rng.below(256) as u8;
+                    if d[pos] != nv {
+                        d[pos] = nv;
+                        changed = true;
+                    }
+                }
+                if changed {
+                    damages.push(("bytes".to_string(), d));
+                }
+            }
+        }
+        for (what, damaged) in damages {
+            cases += 1;
+            let mut img2 = img.clone();
+            img2.insert(f.clone(), damaged);
+            let res = catch(|| validate(&img2));
+            match res {
+                Err(p) => {
+                    e.out.violate("C20", "validate_checksum_panic", format!("{} of {} ({} bytes, body {}): {p}", what, f.display(), data.len(), body_len));
+                    break 'files;
+                }
+                Ok(Err(_detected_by_error)) => {}
+                Ok(Ok(set)) => {
+                    if !set.contains(f) {
+                        e.out.violate("C20", "damage_not_detected", format!("{} of {} ({} bytes, body {}): validate_checksum reported {:?}", what, f.display(), data.len(), body_len, set));
+                        break 'files;
+                    }
+                    if set.len() != 1 {
+                        e.out.violate("C20", "intact_file_reported", format!("{} of {}: validate_checksum reported {:?}", what, f.display(), set));
+                        break 'files;
+                    }
+                }
+            }
+        }
+        // footer version outside the supported range is refused, not misread
+        for v in [b'0', b'3', b'8', b'9'] {
+            if let Some(d) = with_format_version(data, v) {
+                cases += 1;
+                let mut img2 = img.clone();
+                img2.insert(f.clone(), d);
+                let dd = SimDir::from_image(&img2, true);
+                let res = catch(|| Index::open(simdir::boxed(&dd)).and_then(|i| i.directory().open_read(f).map(|_| ()).map_err(tantivy::TantivyError::from)));
+                match res {
+                    Err(p) => {
+                        e.out.violate("C20", "open_read_panic", format!("format version '{}' in {}: {p}", v as char, f.display()));
+                        break 'files;
+                    }
+                    Ok(Ok(())) => {
+                        e.out.violate("C20", "unsupported_version_accepted", format!("{} with index_format_version {} was opened", f.display(), v as char));
+                        break 'files;
+                    }
+                    Ok(Err(err)) => {
+                        let s = format!("{err:?}");
+                        if !s.contains("Incompatib") {
+                            e.out.violate("C20", "unsupported_version_wrong_error", format!("{}: {s}", f.display()));
+                            break 'files;
+                        }
+                    }
+                }
+            }
+        }
+    }
+    e.out.fault_points = cases;
+    e.out.probe_n("damage_cases", cases);
+    e.out.probe_n("damaged_files", files.len() as u64);
+    e.out.nontrivial = cases > 0;
+    sched::set_calm(false);
+    e.finish()
+}
+
+/// Body length according to the footer (len + magic trailer), None if unparseable.
+fn body_len_of(data: &[u8]) -> Option<usize> {
+    if data.len() < 8 {
+        return None;
+    }
+    let n = data.len();
+    let flen = u32::from_le_bytes(data[n - 8..n - 4].try_into().ok()?) as usize;
+    let magic = u32::from_le_bytes(data[n - 4..].try_into().ok()?);
+    if magic != 1337 || flen + 8 > n {
+        return None;
+    }
+    Some(n - 8 - flen)
+}
+
+/// The same file with the digit of `index_format_version` replaced.
+fn with_format_version(data: &[u8], digit: u8) -> Option<Vec<u8>> {
+    let body = body_len_of(data)?;
+    let key = b"\"index_format_version\":";
+    let footer = &data[body..];
+    let pos = footer.windows(key.len()).position(|w| w == key)?;
+    let i = body + pos + key.len();
+    if !data[i].is_ascii_digit() || data.get(i + 1).map(|c| c.is_ascii_digit()).unwrap_or(false) {
+        return None;
+    }
+    let mut d = data.to_vec();
+    d[i] = digit;
+    Some(d)
+}
+
+/// `Index::validate_checksum()` on an image.
+fn validate(img: &Image) -> Result<BTreeSet<PathBuf>, String> {
+    let d = SimDir::from_image(img, true);
+    let index = Index::open(simdir::boxed(&d)).map_err(|x| format!("open: {x}"))?;
+    let set = index.validate_checksum().map_err(|x| format!("validate_checksum: {x}"))?;
+    // the per-file API agrees
+    for p in &set {
+        match index.directory().validate_checksum(p) {
+            Ok(true) => return Err(format!("PER-FILE-DISAGREES {}", p.display())),
+            _ => {}
+        }
+    }
+    Ok(set.into_iter().collect())
+}
+
+// ----------------------------------------------------------------------------------------------
+// C02: concurrent producers, linearizability
+
+#[derive(Clone, Debug)]
+struct ProdRec {
+    thread: usize,
+    op: ProdOp,
+    invoke: u64,
+    ret: u64,
+}
+
+fn body_producers(case: &Case) -> RunOut {
+    let mut e = match Exec::new(case, "C02") {
+        Ok(e) => e,
+        Err(m) => return harness_fail(m),
+    };
+    e.dir.arm(true);
+    e.run_ops();
+    e.phase_quiesce(true);
+    e.check_publications();
+    e.out.nontrivial = e.out.probes.get("producer_histories").cloned().unwrap_or(0) >= 1;
+    sched::set_calm(false);
+    e.finish()
+}
+
+fn fork_op(e: &mut Exec, ps: &[Vec<ProdOp>]) {
+    let Some(w) = e.writer.take() else { return };
+    let w: Arc<tantivy::IndexWriter> = Arc::new(w);
+    let recs: Arc<StdMutex<Vec<ProdRec>>> = Arc::new(StdMutex::new(vec![]));
+    let failed: Arc<StdMutex<Vec<String>>> = Arc::new(StdMutex::new(vec![]));
+    let mut hs = vec![];
+    for (t, p) in ps.iter().enumerate() {
+        let recs = recs.clone();
+        let failed = failed.clone();
+        let fields = e.fields.clone();
+        let w = w.clone();
+        let p = p.clone();
+        let h = shuttle::thread::Builder::new()
+            .name(format!("producer{t}"))
+            .spawn(move || {
+                for op in &p {
+                    let i0 = sched::step();
+                    let r = match op {
+                        ProdOp::Add(d) => w.add_document(d.to_tantivy(&fields)).map(|_| ()),
+                        ProdOp::DeleteKey(k) => {
+                            w.delete_term(Term::from_field_u64(fields.key, *k));
+                            Ok(())
+                        }
+                    };
+                    let i1 = sched::step();
+                    if let Err(x) = r {
+                        failed.lock().unwrap().push(x.to_string());
+                    }
+                    recs.lock().unwrap().push(ProdRec { thread: t, op: op.clone(), invoke: i0, ret: i1 });
+                    shuttle::thread::yield_now();
+                }
+            })
+            .expect("spawn producer");
+        hs.push(h);
+    }
+    for h in hs {
+        if h.join().is_err() {
+            e.out.violate("C02", "producer_panic", "a producer thread panicked".into());
+        }
+    }
+    match Arc::try_unwrap(w) {
+        Ok(w) => e.writer = Some(w),
+        Err(_) => {
+            e.out.harness_error = Some("HARNESS: writer still shared after joining producers".into());
+            return;
+        }
+    }
+    if let Some(x) = failed.lock().unwrap().first() {
+        e.out.violate("C02", "api_error_without_fault", format!("producer call failed: {x}"));
+        return;
+    }
+    let recs: Vec<ProdRec> = recs.lock().unwrap().clone();
+    e.out.probe("producer_histories");
+    for r in &recs {
+        if let ProdOp::Add(d) = &r.op {
+            e.specs.insert(d.uid, d.clone());
+        }
+    }
+    // commit, read back, and look for a linearization that explains what was committed
+    let Some(w) = e.writer.as_mut() else { return };
+    let idx = e.commit_events.len();
+    e.dir.mark(simdir::Mark::CommitStart(idx));
+    let start_seq = e.dir.op_count();
+    let res = catch(|| w.commit());
+    let end_seq = e.dir.op_count();
+    let stamp = match res {
+        Err(p) => {
+            e.out.violate("C02", "panic_on_calling_thread", format!("commit: {p}"));
+            return;
+        }
+        Ok(Err(x)) => {
+            e.out.violate("C02", "api_error_without_fault", format!("commit: {x}"));
+            return;
+        }
+        Ok(Ok(s)) => s,
+    };
+    let observed = match dump::dump_index(&e.index, &e.fields) {
+        Ok(d) => d,
+        Err(x) => {
+            e.out.violate("C02", "dump_error", x.to_string());
+            return;
+        }
+    };
+    let base = e.model.live.clone();
+    match linearize(&base, &recs, &observed, &e.fields) {
+        Some(live) => {
+            e.model.live = live;
+            let m = e.model.commit(Some(stamp), None);
+            e.dir.mark(simdir::Mark::CommitEnd(idx, true));
+            e.commit_events.push(exec::CommitEvent { start_seq, end_seq, model_before: m - 1, model_after: Some(m), ok: true });
+            e.out.commits_ok += 1;
+            e.last_stamp = Some(stamp);
+            e.txn_ops = 0;
+        }
+        None => {
+            let mut h = recs.clone();
+            h.sort_by_key(|r| r.invoke);
+            e.out.violate(
+                "C02",
+                "not_linearizable",
+                format!(
+                    "committed uids {:?} are not the effect of any order of the concurrent calls consistent with real time; before: {:?}; calls: {:?}",
+                    observed.uids(),
+                    model::uids(&base),
+                    h.iter().map(|r| format!("t{}[{}..{}]{}", r.thread, r.invoke, r.ret, match &r.op { ProdOp::Add(d) => format!("Add(uid={},key={})", d.uid, d.key), ProdOp::DeleteKey(k) => format!("Del(key={k})") })).collect::<Vec<_>>()
+                ),
+            );
+        }
+    }
+}
+
+/// Search a total order of `recs` consistent with per-thread order and real-time precedence
+/// (a.ret < b.invoke => a before b) whose sequential effect on `base` is `observed`.
+fn linearize(base: &[DocSpec], recs: &[ProdRec], observed: &dump::Dump, f: &Fields) -> Option<Vec<DocSpec>> {
+    let mut per: BTreeMap<usize, Vec<&ProdRec>> = BTreeMap::new();
+    for r in recs {
+        per.entry(r.thread).or_default().push(r);
+    }
+    let threads: Vec<Vec<&ProdRec>> = per.into_values().collect();
+    let mut pos = vec![0usize; threads.len()];
+    let mut live: Vec<DocSpec> = base.to_vec();
+    let mut seen: BTreeSet<(Vec<usize>, Vec<u64>)> = BTreeSet::new();
+    fn rec<'a>(
+        threads: &[Vec<&'a ProdRec>],
+        pos: &mut Vec<usize>,
+        live: &mut Vec<DocSpec>,
+        seen: &mut BTreeSet<(Vec<usize>, Vec<u64>)>,
+        observed: &dump::Dump,
+        f: &Fields,
+    ) -> Option<Vec<DocSpec>> {
+        let key = (pos.clone(), model::uids(live));
+        if !seen.insert(key) {
+            return None;
+        }
+        if pos.iter().enumerate().all(|(t, p)| *p == threads[t].len()) {
+            return if exec::compare(observed, live, f).is_ok() { Some(live.clone()) } else { None };
+        }
+        for t in 0..threads.len() {
+            if pos[t] == threads[t].len() {
+                continue;
+            }
+            let cand = threads[t][pos[t]];
+            // real-time: no other pending op returned before cand was invoked
+            let mut ok = true;
+            for (u, th) in threads.iter().enumerate() {
+                if u != t && pos[u] < th.len() && th[pos[u]].ret < cand.invoke {
+                    ok = false;
+                    break;
+                }
+            }
+            if !ok {
+                continue;
+            }
+            let saved = live.clone();
+            match &cand.op {
+                ProdOp::Add(d) => live.push(d.clone()),
+                ProdOp::DeleteKey(k) => live.retain(|d| !DelSpec::Key(*k).matches(d)),
+            }
+            pos[t] += 1;
+            if let Some(r) = rec(threads, pos, live, seen, observed, f) {
+                return Some(r);
+            }
+            pos[t] -= 1;
+            *live = saved;
+        }
+        None
+    }
+    rec(&threads, &mut pos, &mut live, &mut seen, observed, f)
+}
+
+pub fn exec_special4(e: &mut Exec, op: &Op) {
+    match op {
+        Op::Reload(_) | Op::Hold(_) | Op::Recheck => main_reader_op(e, op),
+        Op::CreateWriter { .. } | Op::NewWriterAttempt { .. } | Op::DropWriter | Op::RaceCreate { .. } | Op::KillWorker => lock_op(e, op),
+        Op::Fork(ps) => fork_op(e, ps),
+        _ => {}
+    }
+}
+
+#[allow(dead_code)]
+fn unused(_: &dyn Directory, _: &Path) {}
